@@ -85,3 +85,68 @@ pub(crate) fn clock_override() -> Option<std::time::Duration> {
 fn _assert_traits(tree: &Tree) -> usize {
     tree.table_count()
 }
+
+/// Decoded blob indirection: (blob file id, offset, on-disk size, uncompressed size).
+pub fn decode_indirection(bytes: &[u8]) -> Option<(u64, u64, u32, u32)> {
+    use crate::coding::Decode;
+    let mut cursor = std::io::Cursor::new(bytes);
+    let ind = crate::blob_tree::handle::BlobIndirection::decode_from(&mut cursor).ok()?;
+    Some((
+        ind.vhandle.blob_file_id,
+        ind.vhandle.offset,
+        ind.vhandle.on_disk_size,
+        ind.size,
+    ))
+}
+
+/// Resolves an indirection against the blob files of the given version (as reads do).
+pub fn resolve(
+    tree: &crate::BlobTree,
+    version: &Version,
+    key: &[u8],
+    bytes: &[u8],
+) -> crate::Result<Option<crate::UserValue>> {
+    use crate::coding::Decode;
+    let mut cursor = std::io::Cursor::new(bytes);
+    let ind = crate::blob_tree::handle::BlobIndirection::decode_from(&mut cursor)?;
+    tree.verif_resolve(version, key, &ind.vhandle)
+}
+
+/// Blob files of a version: (id, item count, compressed bytes, uncompressed bytes).
+pub fn blob_files(version: &Version) -> Vec<(u64, u64, u64, u64)> {
+    let mut v: Vec<_> = version
+        .blob_files
+        .iter()
+        .map(|bf| {
+            (
+                bf.id(),
+                bf.0.meta.item_count,
+                bf.0.meta.total_compressed_bytes,
+                bf.0.meta.total_uncompressed_bytes,
+            )
+        })
+        .collect();
+    v.sort_unstable();
+    v
+}
+
+/// GC statistics of a version: (blob file id, len, bytes, on-disk bytes).
+pub fn gc_stats(version: &Version) -> Vec<(u64, u64, u64, u64)> {
+    let mut v: Vec<_> = version
+        .gc_stats()
+        .iter()
+        .map(|(id, e)| (*id, e.len as u64, e.bytes, e.on_disk_bytes))
+        .collect();
+    v.sort_unstable();
+    v
+}
+
+/// Blob file references recorded in a table: (blob file id, len, bytes, on-disk bytes).
+pub fn linked_blob_files(table: &Table) -> crate::Result<Vec<(u64, u64, u64, u64)>> {
+    Ok(table
+        .list_blob_file_references()?
+        .unwrap_or_default()
+        .into_iter()
+        .map(|l| (l.blob_file_id, l.len as u64, l.bytes, l.on_disk_bytes))
+        .collect())
+}
